@@ -261,6 +261,29 @@ def task_vector_points():
             bad = "%s: %s" % (type(e).__name__, str(e)[:100])
         out.append(ob("%s:node-set-forms[%s]" % (fn, label), fn, FAILED if bad else PROVED, "B", "concrete", 0.0,
                       bad or "same result as the equivalent call", dict(kind="c11.nodeforms", label=label) if bad else None))
+    # a node SET has no order: onto a target with a full-multiplicity interior knot (two independent blocks) every listing of the same nodes gives the same curve, which interpolates
+    for label, Us, Ps, Ut, nodes in (("linear-pieces", [F(0)] * 3 + [F(1)] * 3, [F(0), F(2), F(1)], [F(0), F(0), F(1, 2), F(1, 2), F(1), F(1)], [F(1, 8), F(1, 4), F(3, 4)]),
+                                     ("parabolic-pieces", [F(-1)] * 4 + [F(1, 2)] + [F(2)] * 4, [F(1), F(-3), F(2), F(5, 2), F(0)], [F(-1)] * 3 + [F(0)] * 3 + [F(2)] * 3, [F(-1), F(-1, 2), F(1), F(3, 2)])):
+        import itertools
+        bad, ref = None, None
+        try:
+            src = curves.Curve(list(Us), list(Ps))
+            for perm in itertools.permutations(nodes):
+                dst = curves.Curve(list(Ut))
+                err = dst.fit_curve(src, list(perm))
+                got = (tuple(dst.ctrlpoints), err)
+                if any(dst(z) != src(z) for z in nodes):
+                    bad = "nodes listed as %s: the fitted curve does not interpolate (%s vs %s)" % ([str(x) for x in perm], [str(dst(z)) for z in nodes], [str(src(z)) for z in nodes])
+                    break
+                if ref is None:
+                    ref = got
+                elif got != ref:
+                    bad = "nodes listed as %s give control points %s, listed in increasing order %s" % ([str(x) for x in perm], [str(x) for x in got[0]], [str(x) for x in ref[0]])
+                    break
+        except Exception as e:
+            bad = "%s: %s" % (type(e).__name__, str(e)[:100])
+        out.append(ob("%s:node-order-independent[%s]" % (fn, label), fn, FAILED if bad else PROVED, "B", "concrete", 0.0,
+                      bad or "every listing of the node set gives the same interpolating curve and error", dict(kind="c11.nodeforms", label="order:" + label) if bad else None))
     # degree-0 spaces whose knots are of DIFFERENT number classes (Fraction source, float target, and the reverse): the 3-point rule comes from an exact table (D53)
     for label, Us, Ps, Ut in (("Fraction->float", [F(0), F(1, 2), F(1)], [F(1), F(2)], [0.0, 0.25, 1.0]), ("float->Fraction", [0.0, 1.0], [3.0], [F(0), F(1, 4), F(1, 2), F(1)])):
         bad = None
@@ -302,7 +325,7 @@ def tasks(tier, seed):
 def replay(o):
     w = o["witness"]
     if w.get("kind") == "c11.nodeforms":
-        tail = ("degree0-mixed-knot-classes[%s]" % w["label"][5:]) if w["label"].startswith("deg0:") else ("node-set-forms[%s]" % w["label"])
+        tail = ("degree0-mixed-knot-classes[%s]" % w["label"][5:]) if w["label"].startswith("deg0:") else (("node-order-independent[%s]" % w["label"][6:]) if w["label"].startswith("order:") else ("node-set-forms[%s]" % w["label"]))
         r = [x for x in task_vector_points() if "id" in x and x["id"].endswith(tail)][0]
         return r["status"] == "failed", "same result as the equivalent call", r["detail"]
     if w.get("kind") == "c11.vector-nodes":
